@@ -55,6 +55,9 @@ type hskAux struct {
 	Err      bool
 }
 
+// hskOrder selects where the scripted master puts its ;PQ line (0: SID, ;PQ, prompt - the usual order).
+var hskOrder = 0
+
 // runHandshake runs a real slave Session against a scripted master that issues the challenge.
 // Returns the bytes the session wrote before its first turn ("FF\r"), or ok=false when the handshake failed.
 func runHandshake(mycall, target, loc string, ua fbb.UserAgent, gzip, hasCb bool, challenge string, main hskAux, aux []hskAux) (wire []byte, ok bool, all []byte) {
@@ -93,6 +96,17 @@ func runHandshake(mycall, target, loc string, ua fbb.UserAgent, gzip, hasCb bool
 	script := "[WL2K-5.0-B2FWIHJM$]\r"
 	if challenge != "" {
 		script += ";PQ: " + challenge + "\r"
+	}
+	switch {
+	case challenge != "" && hskOrder == 1:
+		// the handshake is a set of lines closed by the prompt: the challenge may come before the SID,
+		script = ";PQ: " + challenge + "\r[WL2K-5.0-B2FWIHJM$]\r"
+	case challenge != "" && hskOrder == 2:
+		// between comment / forwarder lines,
+		script = "[WL2K-5.0-B2FWIHJM$]\r;FW: CMS\r;PQ: " + challenge + "\r; hello\r"
+	case challenge != "" && hskOrder == 3:
+		// or be followed by a second SID line (a relay's and the CMS's)
+		script = "[RMS Relay-3.0.27.1-B2FHM$]\r;PQ: " + challenge + "\r[WL2K-5.0-B2FWIHJM$]\r"
 	}
 	script += "CMS via test >\r"
 	b.Write([]byte(script))
@@ -218,7 +232,12 @@ func init() {
 				}
 				aux = append(aux, x)
 			}
+			hskOrder = 0
+			if i%4 == 2 {
+				hskOrder = 1 + c.Rng.Intn(3)
+			}
 			wire, ok, all := runHandshake(mycall, target, loc, ua, gzip, hasCb, challenge, main, aux)
+			hskOrder = 0
 			impl := "err"
 			if ok {
 				impl = "ok " + hx(wire)
